@@ -188,6 +188,14 @@ class World:
             ref = mkref(r, frm, child)
             self.classes.add('broken')
             return {'url': ref} if ref else None
+        if k < 0.2:
+            # a file that exists and is empty (zero characters, only blanks, only a comment): including it fetches it and does nothing
+            child = self.new_file(0, kind_of(frm), level + 1)
+            self.done.remove(child)
+            self.files[normloc(child)] = ('blank', r.choice(['', '', '\n', '   ', '# nothing here', '\r\n']))
+            ref = mkref(r, frm, child)
+            self.classes.add('empty-file')
+            return {'url': ref} if ref else None
         if k < 0.3 and self.done:
             # include an already completed file again (possibly from another directory)
             child = r.choice(self.done)
@@ -254,6 +262,10 @@ def run_impl(w, root, inline, missing_mode, as_built=False):
         opts['systemPrefix'] = w.sys
     if not inline:
         opts['urlFn'] = functools.partial(impl.bs.module.url_file_relative, root)
+    elif len(w.files) % 2:
+        opts['urlFn'] = None            # an option spelled out as None is an option that is not given (the command line does this for -c scripts)
+    if w.sys is None and (len(w.files) // 2) % 2:
+        opts['systemPrefix'] = None
     # the root script is either parsed from its text or handed over as the model a host built (optional members spelled out)
     model = copy.deepcopy(w.files[normloc(root)][1]) if as_built else impl.bs.parse_script(files_text[normloc(root)])
     try:
@@ -293,6 +305,8 @@ def run_ref(w, root, inline, nofetch=False):
             return None
         if v[0] == 'broken':
             return ('parser-error', loc)
+        if v[0] == 'blank':
+            return []
         return v[1]['statements']
     vm = jumpvm.JumpVM(g, logs, max_statements=20000, fetch=fetch, base=None if inline else root, system_prefix=w.sys)
     try:
